@@ -218,9 +218,38 @@ class Ctx:
             self.cov["discharged"] = 0
             return False, "axioms outside the named trusted base: %s (closed=%d of %d)" % (
                 extra, closed, len(thms))
+        if self.tier == "thorough":
+            okc, detail = self.coqchk(mod)
+            if not okc:
+                self.cov["discharged"] = 0
+                return False, detail
         self.cov["discharged"] = nob
         return True, "%d obligations in %d files, %d property theorems, axioms: %s" % (
             nob, len(cone), len(thms), axioms or "none")
+
+    def coqchk(self, mod):
+        """thorough tier: independent re-check of the compiled cone with coqchk, axiom summary"""
+        t = time.time()
+        rc, out = sh(["timeout", "3000", "coqchk", "-silent", "-o", "-Q", THEORIES, "GT", mod],
+                     cwd=COQ, timeout=3100)
+        summary = out[out.find("CONTEXT SUMMARY"):] if "CONTEXT SUMMARY" in out else out[-1500:]
+        self.cov["coqchk"] = {"cmd": "coqchk -silent -o -Q theories GT " + mod, "rc": rc,
+                              "wall_s": round(time.time() - t, 1), "summary": summary.strip()}
+        if rc != 0:
+            return False, "coqchk failed:\n" + out[-2000:]
+        m = re.search(r"\* Axioms:(.*?)\n\s*\n\* Constants", summary, re.S)
+        ax = (m.group(1).strip() if m else "?")
+        allowed = set(getattr(self, "allowed_axioms", []))
+        names = [a.strip() for a in re.split(r"\n", ax) if a.strip() and a.strip() != "<none>"]
+        extra = [a for a in names if not any(a.endswith(x) or x in a for x in allowed)]
+        for key in ("type-in-type", "unsafe (co)fixpoints", "positivity is assumed"):
+            mm = re.search(re.escape(key) + r":(.*?)(\n\s*\n|$)", summary, re.S)
+            if mm and "<none>" not in mm.group(1):
+                return False, "coqchk reports %s: %s" % (key, mm.group(1).strip())
+        if extra:
+            return False, "coqchk reports axioms outside the named trusted base: %s" % extra
+        self.log("coqchk: ok (%.0fs), axioms: %s" % (time.time() - t, ax.replace("\n", " ")))
+        return True, ""
 
     def coq_eval(self, name, vtext, timeout=900, extra_q=()):
         p = os.path.join(self.gen, name + ".v")
